@@ -50,13 +50,18 @@ CONSTANTS
                  \* True / False / None;  "off+true", "off+false": resolve_aliases=False with the (unread) option set
   StubModes,     \* subset of {"none","inpkg","ext","find","find+ext"}: find_stubs_package and where the stubs are
   Layouts,       \* subset of {"flat","chain"}: p.a and p.b siblings / p.a a sub-package containing p.a.b
-  Tops,          \* kinds of the top-level module p: py pyi so ns sofile missing
-  KidsA, KidsB,  \* kinds of the sub-modules a, b: py pyi so missing
+  Tops,          \* kinds of the top-level module p: py pyi so xc ns sofile missing
+  KidsA, KidsB,  \* kinds of the sub-modules a, b: py pyi so xc missing
+                 \*   so = compiled, importable here (.so, tagged .so, .abi3.so, sourceless .pyc)
+                 \*   xc = compiled for the finder, not importable by this CPython (.pyd, tagged .pyd, .pyo)
+  PathMuts,      \* what every executable module body does to sys.path before anything can fail:
+                 \*   "none" | "inplace" (insert/append on the list it sees) | "rebind" (sys.path = [vendor, *sys.path])
   TopFaults, KidFaults, ExtFaults,   \* fault kinds tried on executable modules (always contain "none")
   ExtStyles,     \* how p refers to the external package: "none", "name" (from q import X), "star" (from q import *)
   ExtPrivates,   \* subset of BOOLEAN: the external package is the private sibling _p
   ExtKinds,      \* py (q.py), sofile (compiled single-file module), missing
-  Bugs           \* subset of {"none", "allowFirst", "noReraise", "noFinally", "stubsDynamic", "externalInspect"}
+  Bugs           \* subset of {"none", "allowFirst", "noReraise", "noFinally", "stubsDynamic", "externalInspect",
+                 \*            "pydInspected", "guardedRestore"}
 
 VARIABLES
   cfg,          \* the case (constant during the behaviour)
@@ -65,7 +70,9 @@ VARIABLES
   cur, role,    \* module handled by the agent ladder and its role: top / sub / stub / dyntop
   dyn,          \* the active dynamic_import call
   exc,          \* exception class in flight
-  sysPath,      \* "orig" (the list object sys.path was bound to at the call) or "search" (the replacement list)
+  sysPath,      \* "orig" (the list object sys.path was bound to at the call), "search" (the replacement list
+                \* installed by sys_path) or "alien" (a list made by the analysed code: sys.path = [...])
+  dirty,        \* the lists whose content was changed in place by analysed code
   savedPath,    \* stack of saved bindings (old_path of every active sys_path context manager)
   sysModules,   \* modules of the universe present in sys.modules (delta with respect to the start)
   executed,     \* modules whose body started executing at least once
@@ -78,7 +85,7 @@ VARIABLES
   lastev        \* the event published by the last action (what the taps record)
 
 ctl      == <<pc, lstack, cur, role, dyn, exc>>
-pathvars == <<sysPath, savedPath>>
+pathvars == <<sysPath, savedPath, dirty>>
 impvars  == <<sysModules, executed>>
 treevars == <<agent, members, loaded, todo, offered, skipped, nsparents, failures>>
 vars     == <<cfg, ctl, pathvars, impvars, treevars, outcome, lastev>>
@@ -93,7 +100,7 @@ FileOf(m) ==
   CASE m \in {"p", "a", "b"} -> cfg.file[m]
     [] m = "q" -> IF cfg.extstyle = None THEN "missing" ELSE cfg.extkind
     [] OTHER -> "pyi"
-Compiled(m) == FileOf(m) \in {"so", "sofile"}
+Compiled(m) == FileOf(m) \in {"so", "sofile", "xc"}
 Executable(m) == FileOf(m) \in {"py", "so", "sofile"}
 FaultOf(m) == IF m \in {"p", "a", "b", "q"} THEN cfg.fault[m] ELSE None
 Kids == {m \in {"a", "b"} : cfg.file[m] # "missing"}           \* files yielded by finder.submodules(p)
@@ -102,9 +109,9 @@ Depth(m) == IF m = "b" /\ cfg.layout = "chain" THEN 2 ELSE 1
 \* ---- CPython: what the import system sees ----------------------------------------------------------
 PyKind(m) ==     \* exec: a file whose code runs on import; ns: a directory without such a file; absent
   CASE m = "p" -> IF cfg.file.p \in {"py", "so", "sofile"} THEN "exec"
-                  ELSE IF cfg.file.p \in {"pyi", "ns"} THEN "ns" ELSE "absent"
+                  ELSE IF cfg.file.p \in {"pyi", "ns", "xc"} THEN "ns" ELSE "absent"
     [] m = "a" -> IF cfg.file.a \in {"py", "so"} THEN "exec"
-                  ELSE IF cfg.layout = "chain" /\ (cfg.file.a = "pyi" \/ cfg.file.b # "missing") THEN "ns" ELSE "absent"
+                  ELSE IF cfg.layout = "chain" /\ (cfg.file.a \in {"pyi", "xc"} \/ cfg.file.b # "missing") THEN "ns" ELSE "absent"
     [] m = "b" -> IF cfg.file.b \in {"py", "so"} THEN "exec" ELSE "absent"
     [] m = "q" -> IF Executable("q") THEN "exec" ELSE "absent"
     [] OTHER -> "absent"
@@ -133,7 +140,7 @@ FindRes(pkg) ==
   IF pkg = "q"
   THEN IF FileOf("q") = "py" THEN [res |-> "package", stubs |-> FALSE, viastubs |-> FALSE] ELSE NotFound
   ELSE LET base == IF cfg.file.p \in {"py", "pyi"} THEN "package"
-                   ELSE IF cfg.file.p \in {"so", "ns"} THEN "namespace" ELSE "notfound"
+                   ELSE IF cfg.file.p \in {"so", "xc", "ns"} THEN "namespace" ELSE "notfound"
            fs == cfg.findstubs /\ cfg.stubs = "ext"       \* the stubs-only package is searched and exists
        IN IF base = "package" THEN [res |-> "package", stubs |-> (fs \/ cfg.stubs = "inpkg"), viastubs |-> FALSE]
           ELSE IF base = "namespace" THEN [res |-> "namespace", stubs |-> FALSE, viastubs |-> FALSE]
@@ -146,6 +153,7 @@ Ladder(m, isNs, r, pkg) ==
   ELSE IF Bug = "stubsDynamic" /\ r = "stub" THEN "inspect"
   ELSE IF Bug = "externalInspect" /\ pkg = "q" THEN "inspect"
   ELSE IF cfg.force THEN "inspect"
+  ELSE IF Bug = "pydInspected" /\ FileOf(m) = "xc" THEN "inspect"       \* refusal by an enumerated suffix set that forgets one
   ELSE IF Bug = "allowFirst" /\ cfg.allow THEN "inspect"
   ELSE IF Source(m) THEN "visit"
   ELSE IF cfg.allow THEN "inspect"
@@ -157,7 +165,7 @@ Pkg == Top.pkg
 Front(s) == SubSeq(s, 1, Len(s) - 1)
 NoDyn == [target |-> None, ctx |-> None, t |-> None, q |-> <<>>, failed |-> FALSE, bad |-> None, raising |-> FALSE]
 NewDyn(target, ctx) == [NoDyn EXCEPT !.target = target, !.ctx = ctx, !.t = target]
-PathOk == sysPath = "orig" /\ savedPath = <<>>
+PathOk == sysPath = "orig" /\ savedPath = <<>> /\ "orig" \notin dirty
 Ev(r) == lastev' = r
 
 \* p's __init__ holds the reference to the external package; it exists in the tree iff p was visited
@@ -206,7 +214,7 @@ InitCase ==
         kb \in (IF top \in {"sofile", "missing"} THEN {"missing"} ELSE KidsB) :
      \E es \in (IF top \in {"py", "pyi"} THEN ExtStyles ELSE {None}) :
      \E ep \in (IF es = None THEN {FALSE} ELSE ExtPrivates), ek \in (IF es = None THEN {"missing"} ELSE ExtKinds) :
-     \E bg \in Bugs :
+     \E bg \in Bugs, pm \in PathMuts :
      \E fp \in FaultsFor(top, TopFaults), fa \in FaultsFor(ka, KidFaults), fb \in FaultsFor(kb, KidFaults),
         fq \in FaultsFor(IF es = None THEN "missing" ELSE ek, ExtFaults) :
        /\ (ka = "missing" /\ kb = "missing") => lay = "flat"          \* the layouts coincide
@@ -216,10 +224,10 @@ InitCase ==
                  findstubs |-> FindStubsOf(sm), stubs |-> StubsOf(sm), layout |-> lay,
                  file |-> [p |-> top, a |-> ka, b |-> kb],
                  extstyle |-> es, extprivate |-> ep, extkind |-> ek,
-                 fault |-> [p |-> fp, a |-> fa, b |-> fb, q |-> fq], bug |-> bg]
+                 fault |-> [p |-> fp, a |-> fa, b |-> fb, q |-> fq], pathmut |-> pm, bug |-> bg]
 InitRun ==
   /\ pc = "Construct" /\ lstack = <<>> /\ cur = None /\ role = None /\ dyn = NoDyn /\ exc = None
-  /\ sysPath = "orig" /\ savedPath = <<>> /\ sysModules = {} /\ executed = {}
+  /\ sysPath = "orig" /\ savedPath = <<>> /\ dirty = {} /\ sysModules = {} /\ executed = {}
   /\ agent = [m \in Mods |-> None] /\ members = {} /\ loaded = {} /\ todo = {} /\ offered = {} /\ skipped = {}
   /\ nsparents = {} /\ failures = {} /\ outcome = None
   /\ lastev = [ev |-> "Init"]
@@ -326,7 +334,7 @@ DynImport ==
 
 EnterSysPath ==                                    \* old_path = sys.path; sys.path = [search paths]
   /\ pc = "EnterSysPath"
-  /\ savedPath' = Append(savedPath, sysPath) /\ sysPath' = "search"
+  /\ savedPath' = Append(savedPath, sysPath) /\ sysPath' = "search" /\ dirty' = dirty \ {"search"}      \* a fresh list every time
   /\ pc' = "TryImport"
   /\ Ev([ev |-> "EnterSysPath", replaced |-> TRUE])
   /\ UNCHANGED <<cfg, lstack, cur, role, dyn, exc, impvars, treevars, outcome>>
@@ -345,13 +353,17 @@ Import ==                                          \* the body of a module start
   /\ LET m == Head(dyn.q) IN
      /\ executed' = executed \cup {m}
      /\ Ev([ev |-> "Import", m |-> m])
+     \* the body touches sys.path first (before it can fail)
+     /\ sysPath' = IF cfg.pathmut = "rebind" THEN "alien" ELSE sysPath
+     /\ dirty' = IF cfg.pathmut = "inplace" THEN dirty \cup {sysPath} ELSE IF cfg.pathmut = "rebind" THEN dirty \ {"alien"} ELSE dirty
+     /\ savedPath' = savedPath
      /\ IF FaultOf(m) # None
         THEN /\ sysModules' = sysModules \cup {m}           \* in sys.modules while its body runs
              /\ dyn' = [dyn EXCEPT !.failed = TRUE, !.bad = m, !.q = <<>>]
         ELSE LET r == Settle(Tail(dyn.q), sysModules \cup {m}) IN
              /\ sysModules' = r.sm
              /\ dyn' = [dyn EXCEPT !.q = r.q, !.failed = r.failed]
-  /\ UNCHANGED <<cfg, pc, lstack, cur, role, exc, pathvars, treevars, outcome>>
+  /\ UNCHANGED <<cfg, pc, lstack, cur, role, exc, treevars, outcome>>
 
 ImportOk ==
   /\ pc = "Importing" /\ ~dyn.failed /\ dyn.q = <<>>
@@ -372,9 +384,10 @@ ImportFail ==                                      \* except BaseException: Runt
 
 ExitSysPath ==                                     \* finally: sys.path = old_path
   /\ pc = "ExitSysPath"
-  /\ LET restore == ~(Bug = "noFinally" /\ dyn.raising)
+  /\ LET restore == /\ ~(Bug = "noFinally" /\ dyn.raising)
+                    /\ ~(Bug = "guardedRestore" /\ sysPath # "search")     \* "only undo our own change"
          np == IF restore THEN savedPath[Len(savedPath)] ELSE sysPath
-     IN /\ sysPath' = np /\ savedPath' = Front(savedPath)
+     IN /\ sysPath' = np /\ savedPath' = Front(savedPath) /\ dirty' = dirty
         /\ Ev([ev |-> "ExitSysPath", restored |-> restore, by |-> IF dyn.raising THEN "exception" ELSE "normal"])
   /\ pc' = IF dyn.raising THEN "DynImportFail" ELSE "DynImportOk"
   /\ UNCHANGED <<cfg, lstack, cur, role, dyn, exc, impvars, treevars, outcome>>
@@ -484,7 +497,7 @@ Spec == Init /\ [][Next]_vars
 \* (1) with dynamic analysis disallowed nothing of the package is executed or enters sys.modules - in EVERY state
 NoExecutionWhenStatic == Static => (executed = {} /\ sysModules = {})
 \* ... and sys.path is never even rebound
-NoPathSwapWhenStatic == Static => (sysPath = "orig" /\ savedPath = <<>>)
+NoPathSwapWhenStatic == Static => (sysPath = "orig" /\ savedPath = <<>> /\ dirty = {})
 \* (2) compiled modules are skipped, never imported, when inspection is disallowed
 CompiledSkippedWhenStatic ==
   Static => \A m \in Mods : Compiled(m) => /\ agent[m] \in {None, "refuse", "create"}
@@ -495,7 +508,8 @@ CompiledSkippedWhenStatic ==
 \*      parent of a compiled sub-module that is inspected
 SourceVisitedUnlessForced == ~cfg.force => \A m \in Mods : Source(m) => agent[m] \in {None, "visit"}
 \* (3) whatever the outcome, at the end sys.path is bound to the original list and nothing is left saved
-PathRestoredAtEnd == pc = "Done" => (sysPath = "orig" /\ savedPath = <<>>)
+\*     - the same object (identity) with the same content ("orig" was never modified in place)
+PathRestoredAtEnd == pc = "Done" => (sysPath = "orig" /\ savedPath = <<>> /\ "orig" \notin dirty)
 \* ... also at the end of every nested load (external packages) and whenever no dynamic import is active
 PathRestoredOutsideImport == (pc \in {"LoadReturn", "LoadRaise", "Return", "Raise", "FindSpec", "ChooseAgent", "Visit", "Submodule"}) => PathOk
 \* (4) EnterSysPath / ExitSysPath are balanced: never nested, the replacement is in force exactly inside
@@ -503,14 +517,14 @@ Balanced == /\ Len(savedPath) <= 1
             /\ (savedPath = <<>>) <=> (sysPath = "orig")
             /\ (savedPath # <<>>) => (savedPath[1] = "orig" /\ pc \in {"TryImport", "Importing", "ExitSysPath"})
 \* code of the package runs only inside the with-block of sys_path (action property)
-ExecOnlyUnderSwap == [][executed' # executed => (sysPath = "search" /\ ~Static)]_vars
+ExecOnlyUnderSwap == [][executed' # executed => (sysPath # "orig" /\ savedPath # <<>> /\ ~Static)]_vars
 \* (5) the only ways out: the documented exception classes; SystemExit never escapes
 OutcomeLegal ==
   /\ outcome \in {None, "Return", "ModuleNotFoundError", "ImportError", "LoadingError"}
   /\ (outcome = "ModuleNotFoundError") => Static          \* re-raised iff inspection is disallowed
   /\ (Static /\ pc = "Done" /\ FindRes("p").res = "notfound") => outcome = "ModuleNotFoundError"
 TypeOK ==
-  /\ sysPath \in {"orig", "search"} /\ sysModules \subseteq {"p", "a", "b", "q"} /\ executed \subseteq {"p", "a", "b", "q"}
+  /\ sysPath \in {"orig", "search", "alien"} /\ dirty \subseteq {"orig", "search", "alien"} /\ sysModules \subseteq {"p", "a", "b", "q"} /\ executed \subseteq {"p", "a", "b", "q"}
   /\ Len(lstack) <= 2 /\ skipped \subseteq offered /\ members \subseteq offered
 
 \* seeded defects of the model: each one must be caught by a clause (LoadProtocol_bugs.cfg, run with -continue)
@@ -521,6 +535,8 @@ CatchNoReraise == Bug = "noReraise" => NoExecutionWhenStatic
 CatchNoFinally == Bug = "noFinally" => (Balanced /\ PathRestoredAtEnd)
 CatchStubsDynamic == Bug = "stubsDynamic" => NoExecutionWhenStatic
 CatchExternalInspect == Bug = "externalInspect" => NoExecutionWhenStatic
+CatchPydInspected == Bug = "pydInspected" => (NoExecutionWhenStatic /\ CompiledSkippedWhenStatic)
+CatchGuardedRestore == Bug = "guardedRestore" => PathRestoredAtEnd
 
 \* every terminal state is printed: one implementation test per case (gverif/props/c15.py replays it)
 EmitCase ==
